@@ -65,3 +65,81 @@ Section Root.
     rewrite Rinv_inv. unfold x. field. split; lra.
   Qed.
 End Root.
+
+(* ---------------- Resels: wedge, orientation, integrate ---------------- *)
+From Coq Require Import List.
+
+Lemma det4_homogeneous a b c tx d e f ty g h i tz :
+  det4 a b c tx d e f ty g h i tz 0 0 0 1 = det3 a b c d e f g h i.
+Proof. unfold det4, det3. ring. Qed.
+
+(* scaling (in particular flipping, s = -1) voxel axes multiplies the determinant *)
+Lemma det3_scale_columns s1 s2 s3 a b c d e f g h i :
+  det3 (s1 * a) (s2 * b) (s3 * c) (s1 * d) (s2 * e) (s3 * f) (s1 * g) (s2 * h) (s3 * i)
+  = s1 * s2 * s3 * det3 a b c d e f g h i.
+Proof. unfold det3. ring. Qed.
+
+Section Wedge.
+  Variable D : nat.
+  Variable root : R -> R.                  (* np.power(., 1./D) *)
+  Hypothesis root_spec : forall r, 0 < r -> 0 < root r /\ (root r) ^ D = r.
+  Hypothesis root_pow : forall x, 0 < x -> root (x ^ D) = x.
+
+  Lemma wedge_pos d : d <> 0 -> 0 < wedge_of root d.
+  Proof. intros Hd. unfold wedge_of. apply root_spec. apply Rabs_pos_lt. exact Hd. Qed.
+
+  Lemma wedge_pow d : d <> 0 -> (wedge_of root d) ^ D = Rabs d.
+  Proof. intros Hd. unfold wedge_of. apply root_spec. apply Rabs_pos_lt. exact Hd. Qed.
+
+  Lemma wedge_flip d : wedge_of root (- d) = wedge_of root d.
+  Proof. unfold wedge_of. rewrite Rabs_Ropp. reflexivity. Qed.
+
+  Lemma resel_inverse_any_affine d v :
+    d <> 0 -> 0 < v ->
+    fwhm2resel D (wedge_of root d) (resel2fwhm root (wedge_of root d) v) = v /\
+    resel2fwhm root (wedge_of root d) (fwhm2resel D (wedge_of root d) v) = v.
+  Proof.
+    intros Hd Hv. pose proof (wedge_pos d Hd) as W. split.
+    - apply (resel_roundtrip D root root_spec); assumption.
+    - apply (fwhm_roundtrip D root root_pow); assumption.
+  Qed.
+
+  (* resels per voxel = voxel volume * (sqrt(4 ln 2) / fwhm)^D, whatever the orientation *)
+  Lemma fwhm2resel_meaning d f :
+    d <> 0 -> 0 < f ->
+    fwhm2resel D (wedge_of root d) f = Rabs d * (sqrt (4 * ln 2) / f) ^ D.
+  Proof.
+    intros Hd Hf. pose proof (wedge_pos d Hd) as W. pose proof w4_pos as C.
+    unfold fwhm2resel.
+    assert (P : 0 < f / (sqrt (4 * ln 2) * wedge_of root d)).
+    { apply Rdiv_lt_0_compat; [exact Hf|apply Rmult_lt_0_compat; assumption]. }
+    rewrite pos_recipr_pos by (apply pow_lt; exact P).
+    rewrite <- pow_inv.
+    replace (/ (f / (sqrt (4 * ln 2) * wedge_of root d))) with (wedge_of root d * (sqrt (4 * ln 2) / f))
+      by (field; repeat split; lra).
+    rewrite Rpow_mult_distr. rewrite (wedge_pow d Hd). reflexivity.
+  Qed.
+
+  Lemma resel_orientation_independent d f :
+    fwhm2resel D (wedge_of root (- d)) f = fwhm2resel D (wedge_of root d) f /\
+    resel2fwhm root (wedge_of root (- d)) f = resel2fwhm root (wedge_of root d) f.
+  Proof. rewrite wedge_flip. split; reflexivity. Qed.
+
+  (* integrate over a constant resel field: the average is the constant *)
+  Lemma rsum_const r (vox : list (R * R)) :
+    Forall (fun p => fst p = r) vox ->
+    rsum (map (fun p => fst p * snd p) vox) = r * rsum (map snd vox).
+  Proof.
+    induction 1 as [|p l Hp Hl IH]; cbn [map rsum fold_right].
+    - ring.
+    - unfold rsum in IH. rewrite IH. rewrite Hp. ring.
+  Qed.
+
+  Lemma integrate_constant wedge r vox :
+    Forall (fun p => fst p = r) vox -> rsum (map snd vox) <> 0 ->
+    integrate root wedge vox = (r * rsum (map snd vox), resel2fwhm root wedge r, rsum (map snd vox)).
+  Proof.
+    intros Hc Hn. unfold integrate. rewrite (rsum_const r vox Hc).
+    replace (r * rsum (map snd vox) / rsum (map snd vox)) with r by (field; exact Hn). reflexivity.
+  Qed.
+End Wedge.
